@@ -346,6 +346,11 @@ func finish(P *Program, verif, prop, tier string, seed int, results []*HarnessRe
 						hit = true
 					}
 				}
+				if rn := raceDirective(P.harnesses[p.r.Name]); rn != "" && !(o.Result == "fail" || o.Result == "panic" || hit) {
+					if raced, _ := P.runRace(rel, rn, scratch); raced {
+						hit = true
+					}
+				}
 				if o.Result == "fail" || o.Result == "panic" || hit {
 					validated++
 					if !knownPrinted[p.v.known] {
@@ -359,6 +364,16 @@ func finish(P *Program, verif, prop, tier string, seed int, results []*HarnessRe
 				}
 			case "cex":
 				confirmed := (o.Result == "fail" || o.Result == "panic")
+				if rn := raceDirective(P.harnesses[p.r.Name]); !confirmed && rn != "" {
+					// a shared-write finding: confirmed by the race detector on a concurrent native run
+					raced, rout := P.runRace(rel, rn, scratch)
+					if raced {
+						confirmed = true
+						o.Result, o.Msg = "fail", "race detector: DATA RACE in "+rn
+					} else if os.Getenv("VP_DEBUG") != "" {
+						fmt.Println(rout)
+					}
+				}
 				if confirmed {
 					validated++
 					violations++
